@@ -534,6 +534,9 @@ func roundTrip(d *Desc, fi *fmtInfo, i *insts.Inst) string {
 		}
 		cnt("dst", i.Dst, cd)
 		cnt("src0", i.Src0, c0)
+	case "Vopc": // 64-bit compares take register pairs
+		cnt("src0", i.Src0, w64(i.SRC0Width))
+		cnt("vsrc1", i.Src1, w64(i.SRC1Width))
 	case "Vop3a":
 		cnt("dst", i.Dst, w64(i.DSTWidth))
 		cnt("src0", i.Src0, w64(i.SRC0Width))
